@@ -1,6 +1,7 @@
 //! kvh — correspondence harness for khttp.  `kvh <stream> <seed> <tier> <outdir>` runs the
 //! implementation in /repo on generated cases and writes line-aligned `<stream>.cases` /
 //! `<stream>.impl` files plus `<stream>.stats.json`.  `kvh replay <stream> <case>` runs one case.
+mod s_body;
 mod s_date;
 mod s_headers;
 mod s_parse;
@@ -24,6 +25,7 @@ fn main() {
             "router" => s_router::run(&a[3]),
             "headers" => s_headers::run(&a[3]),
             "parse" => s_parse::run_parse(&a[3]),
+            "body" => s_body::run(&a[3]),
             "prefix" => s_parse::run_prefix(&a[3]),
             "grammar" => s_parse::run_grammar(&a[3]),
             s => panic!("unknown stream {s}"),
@@ -44,6 +46,7 @@ fn main() {
         "router" => s_router::gen(&ctx),
         "headers" => s_headers::gen(&ctx),
         "parse" => s_parse::gen_parse(&ctx),
+        "body" => s_body::gen(&ctx),
         "prefix" => s_parse::gen_prefix(&ctx),
         "grammar" => s_parse::gen_grammar(&ctx),
         s => panic!("unknown stream {s}"),
